@@ -5,6 +5,7 @@ import (
 	"math/rand"
 	"os"
 	"strings"
+	"sync/atomic"
 	"testing"
 	"testing/synctest"
 	"time"
@@ -118,7 +119,9 @@ func c04History(t *testing.T, rng *rand.Rand, concurrent bool) (viols [][2]strin
 		tr := &c04Tracker{seenPtr: map[uintptr]bool{}}
 		// members in every state
 		subjects := []string{"self", "unknown"}
-		mkNode := func(name string, i int) { nd.NotifyJoin(cluster.FakeNode(name, fmt.Sprintf("10.0.1.%d", i), 7946, nil)) }
+		mkNode := func(name string, i int) {
+			nd.NotifyJoin(cluster.FakeNode(name, fmt.Sprintf("10.0.1.%d", i), 7946, nil))
+		}
 		states := []string{"alive", "leaving", "left", "failed"}
 		for i, st := range states {
 			if rng.Intn(5) == 0 {
@@ -392,6 +395,68 @@ func c04Edge(t *testing.T, rng *rand.Rand) (viols [][2]string, stats map[string]
 	return
 }
 
+// c04SameRace: several copies of one NEW message arrive at the same instant on different
+// goroutines (memberlist hands a UDP packet and every TCP stream to NotifyMsg on goroutines
+// of their own). However the copies interleave inside the node, the message is re-broadcast once.
+func c04SameRace(t *testing.T, rng *rand.Rand, rounds int) (viols [][2]string, stats map[string]int) {
+	stats = map[string]int{}
+	synctest.Test(t, func(t *testing.T) {
+		net := simnet.New(1)
+		nd, err := cluster.Start(net, cluster.Opts{Name: "self", IP: "10.0.0.1", Profile: "passive", EventBuf: 1 << 15,
+			Mutate: func(c *serf.Config) { c.BroadcastTimeout, c.LeavePropagateDelay = 0, 0 }})
+		if err != nil {
+			viols = append(viols, [2]string{"setup", err.Error()})
+			return
+		}
+		defer nd.Close()
+		nd.NotifyJoin(cluster.FakeNode("alive", "10.0.1.1", 7946, nil))
+		tr := &c04Tracker{seenPtr: map[uintptr]bool{}}
+		synctest.Wait()
+		tr.poll(nd)
+		for round := 0; round < rounds && len(viols) == 0; round++ {
+			lt := uint64(100 + round)
+			var msg []byte
+			var desc string
+			switch rng.Intn(4) {
+			case 0:
+				msg, desc = wire.Encode(wire.UserEvent, &wire.MsgUserEvent{LTime: lt, Name: "e", Payload: []byte("p")}), fmt.Sprintf("event(%d)", lt)
+			case 1:
+				msg, desc = wire.Encode(wire.Query, &wire.MsgQuery{LTime: lt, ID: uint32(round), Addr: []byte{10, 0, 0, 9}, Port: 7946, SourceNode: "src", Timeout: time.Second, Name: "q"}), fmt.Sprintf("query(%d)", lt)
+			case 2:
+				msg, desc = wire.Encode(wire.Join, &wire.MsgJoin{LTime: lt, Node: "alive"}), fmt.Sprintf("join(alive,%d)", lt)
+			default:
+				msg, desc = wire.Encode(wire.Join, &wire.MsgJoin{LTime: lt, Node: fmt.Sprintf("unknown-%d", round%3)}), fmt.Sprintf("join(unknown,%d)", lt)
+			}
+			k := 2 + rng.Intn(7)
+			var start atomic.Bool
+			g := newBGroup()
+			for i := 0; i < k; i++ {
+				b := append([]byte(nil), msg...)
+				g.Go(func() {
+					for !start.Load() {
+					}
+					nd.NotifyMsg(b)
+				})
+			}
+			start.Store(true)
+			g.Wait()
+			synctest.Wait()
+			n := 0
+			for _, f := range tr.poll(nd) {
+				if string(f) == string(msg) {
+					n++
+				}
+			}
+			stats["same_message_races"]++
+			stats["same_message_copies"] += k
+			if n > 1 {
+				viols = append(viols, [2]string{"rebroadcast-twice/simultaneous-copies", fmt.Sprintf("round %d: %d copies of %s delivered at the same instant on %d goroutines were re-broadcast %d times", round, k, desc, k, n)})
+			}
+		}
+	})
+	return
+}
+
 func TestC04(t *testing.T) {
 	r := evid.Start(t, "C04", "exploration")
 	race := os.Getenv("VERIF_PHASE") == "race"
@@ -420,6 +485,20 @@ func TestC04(t *testing.T) {
 	}
 	run("seq", n, false)
 	run("conc", nc, true)
+	nr := r.N(48, 1500)
+	if race {
+		nr = r.N(8, 100)
+	}
+	r.Cases("samerace", nr, 0, func(ci int, rng *rand.Rand) {
+		viols, stats := c04SameRace(t, rng, 1500)
+		r.Eval(1)
+		for k, v := range stats {
+			r.Count(k, v)
+		}
+		for _, v := range viols {
+			r.Violation(v[0], ci, v[1], v[1])
+		}
+	})
 	ne := r.N(3000, 100000)
 	if race {
 		ne = r.N(60, 2000)
